@@ -186,7 +186,7 @@ def run(ctx):
     # one object written repeatedly while it is changed in between (assignments, in-place container / sub-message mutations,
     # parses into it, copies): after every call its frame must carry the right prefix and read back, twice, as the current value
     from .. import hist
-    hist.run_histories(ctx, ["TRep", "TMapV", "TMix", "TOne", "TOpt", "Node"], 300 if quick else 8000, 9, "inplace", judge_len=True)
+    hist.run_histories(ctx, ["TScal", "TScal", "TRep", "TMapV", "TMix", "TOne", "TOpt", "Node"], 300 if quick else 8000, 9, "inplace", judge_len=True)
 
 
 def wide_event(args):
